@@ -226,6 +226,8 @@ impl BlockEncoder {
         // it is full or the end of the stream is reached
         let mut result = 0;
         while result < buffer.len() {
+            #[cfg(feature = "ypo_flute_verif")]
+            crate::verif::tick("blockencoder::read_block_stream");
             match stream.read(&mut buffer[result..]) {
                 Ok(0) => break,
                 Ok(s) => result += s,
